@@ -117,13 +117,32 @@ Definition view_spec (fs : tfs) (nm v : bytes) : option defs :=
 Record flavour := {
   html : bool;         (* html/template: executed flag matters; html-style handling of missing dirs *)
   clone_out : bool;    (* cached provider hands out CLONES of its base/layout (F29 fix)           *)
-  locked_fast : bool   (* fast-path cache read under RLock (F25 fix)                              *)
+  locked_fast : bool;  (* fast-path cache read under RLock (F25 fix)                              *)
+  inj_key : bool       (* views cache key is unambiguous (fix 7035bfe); false: layout ++ ":" ++ view *)
 }.
-Definition html_now := {| html := true; clone_out := true; locked_fast := true |}.
-Definition text_now := {| html := false; clone_out := false; locked_fast := true |}.
-Definition html_F29 := {| html := true; clone_out := false; locked_fast := true |}.
-Definition html_F25 := {| html := true; clone_out := true; locked_fast := false |}.
-Definition text_F25 := {| html := false; clone_out := false; locked_fast := false |}.
+Definition html_now := {| html := true; clone_out := true; locked_fast := true; inj_key := true |}.
+Definition text_now := {| html := false; clone_out := false; locked_fast := true; inj_key := true |}.
+Definition html_F29 := {| html := true; clone_out := false; locked_fast := true; inj_key := true |}.
+Definition html_F25 := {| html := true; clone_out := true; locked_fast := false; inj_key := true |}.
+Definition text_F25 := {| html := false; clone_out := false; locked_fast := false; inj_key := true |}.
+Definition html_oldkey := {| html := true; clone_out := true; locked_fast := true; inj_key := false |}.
+Definition text_oldkey := {| html := false; clone_out := false; locked_fast := true; inj_key := false |}.
+
+(** Key of the views cache.  The code now uses len(layout) ++ ":" ++ layout ++ ":" ++ view, which
+    determines the pair; it is modelled by the pair itself ([KPair]).  Before 7035bfe the key was
+    the string layout ++ ":" ++ view ([KStr]), ambiguous for names containing ':'. *)
+Inductive vkey := KStr (k : bytes) | KPair (l v : bytes).
+Definition vkey_eqb (a b : vkey) : bool :=
+  match a, b with
+  | KStr x, KStr y => bytes_eqb x y
+  | KPair l v, KPair l' v' => bytes_eqb l l' && bytes_eqb v v'
+  | _, _ => false
+  end.
+Fixpoint vassoc {A} (k : vkey) (l : list (vkey * A)) : option A :=
+  match l with
+  | [] => None
+  | (k', a) :: l' => if vkey_eqb k' k then Some a else vassoc k l'
+  end.
 
 Record tobj := { o_defs : defs; o_exec : bool }.
 
@@ -131,7 +150,7 @@ Record pstate := {
   heap : list tobj;                 (* object id = index *)
   c_base : option nat;              (* provider.baseTemplate *)
   c_lay : list (bytes * nat);       (* provider.layouts, key = layout name after defaulting *)
-  c_view : list (bytes * nat)       (* provider.views, key = layout ++ ":" ++ view *)
+  c_view : list (vkey * nat)        (* provider.views *)
 }.
 Definition pinit : pstate := {| heap := []; c_base := None; c_lay := []; c_view := [] |}.
 
@@ -141,7 +160,7 @@ Definition set_base (i : nat) (p : pstate) :=
   {| heap := heap p; c_base := Some i; c_lay := c_lay p; c_view := c_view p |}.
 Definition set_lay (k : bytes) (i : nat) (p : pstate) :=
   {| heap := heap p; c_base := c_base p; c_lay := (k, i) :: c_lay p; c_view := c_view p |}.
-Definition set_view (k : bytes) (i : nat) (p : pstate) :=
+Definition set_view (k : vkey) (i : nat) (p : pstate) :=
   {| heap := heap p; c_base := c_base p; c_lay := c_lay p; c_view := (k, i) :: c_view p |}.
 
 Definition alloc (d : defs) (p : pstate) : pstate * nat :=
@@ -191,7 +210,7 @@ Definition build_layout (fl : flavour) (c : bool) (fs : tfs) (nm : bytes) (b : n
   end.
 
 (** provider.view(layout, view, key) after the miss, given the layout object [ly]. *)
-Definition build_view (fl : flavour) (c : bool) (fs : tfs) (key v : bytes) (ly : nat) (p : pstate)
+Definition build_view (fl : flavour) (c : bool) (fs : tfs) (key : vkey) (v : bytes) (ly : nat) (p : pstate)
   : pstate * res nat :=
   match assoc v (f_views fs) with
   | None =>
@@ -226,18 +245,19 @@ Definition get_layout (fl : flavour) (c : bool) (fs : tfs) (nm : bytes) (p : pst
     end
   end.
 
-Definition view_key (nm v : bytes) : bytes := nm ++ COLON :: v.
+Definition view_key (fl : flavour) (nm v : bytes) : vkey :=
+  if inj_key fl then KPair nm v else KStr (nm ++ COLON :: v).
 
 Definition get_view (fl : flavour) (c : bool) (fs : tfs) (l v : bytes) (p : pstate) : pstate * res nat :=
   let nm := defname l in
   match v with
   | [] => (p, Err)
   | _ =>
-    match assoc (view_key nm v) (c_view p) with
+    match vassoc (view_key fl nm v) (c_view p) with
     | Some i => (p, Ok i)
     | None =>
       match get_layout fl c fs nm p with
-      | (p1, Ok ly) => build_view fl c fs (view_key nm v) v ly p1
+      | (p1, Ok ly) => build_view fl c fs (view_key fl nm v) v ly p1
       | r => r
       end
     end
@@ -329,7 +349,7 @@ Definition spec_req (fs : tfs) (prev : list obs) (q : req) : obs :=
 Definition spec_run (fs : tfs) (qs : list req) : list obs :=
   fold_left (fun prev q => prev ++ [spec_req fs prev q]) qs [].
 
-(** Precondition (known, unrepaired key collision of the views cache, key = layout ++ ":" ++ view):
+(** Only for the pre-7035bfe key (layout ++ ":" ++ view, flavours with [inj_key = false]):
     layout names in View requests contain no ':'. *)
 Definition nocolon (l : bytes) : bool := negb (existsb (N.eqb COLON) l).
 Definition req_ok (q : req) : bool :=
@@ -337,8 +357,12 @@ Definition req_ok (q : req) : bool :=
 
 (** Vocabulary of the theorems. *)
 
-(** The flavours the positive theorems are about: an html provider hands out clones. *)
-Definition good (fl : flavour) : Prop := html fl = true -> clone_out fl = true.
+(** The flavours the positive theorems are about: an html provider hands out clones and the
+    views cache key is unambiguous. *)
+Definition good (fl : flavour) : Prop :=
+  (html fl = true -> clone_out fl = true) /\ inj_key fl = true.
+(** weaker: the pre-7035bfe key is fine as long as layout names contain no ':' *)
+Definition good_clone (fl : flavour) : Prop := html fl = true -> clone_out fl = true.
 
 Definition pure_req (q : req) : bool := match q with RExec _ => false | _ => true end.
 
@@ -407,18 +431,18 @@ Definition holdsR (lk : nat) (t : thread) : bool :=
 
 Definition start (fl : flavour) : phase := if locked_fast fl then PRLock else PReadU.
 
-Definition cache_read (lv : level) (p : pstate) : option nat :=
+Definition cache_read (fl : flavour) (lv : level) (p : pstate) : option nat :=
   match lv with
   | LvB => c_base p
   | LvL nm => assoc nm (c_lay p)
-  | LvV nm v => assoc (view_key nm v) (c_view p)
+  | LvV nm v => vassoc (view_key fl nm v) (c_view p)
   end.
 
 Definition build (fl : flavour) (c : bool) (fs : tfs) (lv : level) (sub : nat) (p : pstate) :=
   match lv with
   | LvB => build_base fl c fs p
   | LvL nm => build_layout fl c fs nm sub p
-  | LvV nm v => build_view fl c fs (view_key nm v) v sub p
+  | LvV nm v => build_view fl c fs (view_key fl nm v) v sub p
   end.
 
 (** Give [r] to the caller of the finished innermost frame. *)
@@ -445,9 +469,9 @@ Definition tstep (fl : flavour) (c : bool) (fs : tfs) (p : pstate) (t : thread)
   | TRun q ((lv, ph) :: rest) =>
     match ph with
     | PRLock => Some (p, TRun q ((lv, PRead) :: rest), ARLock (lock_of lv))
-    | PRead => Some (p, TRun q ((lv, PRUnlock (cache_read lv p)) :: rest), ANone)
+    | PRead => Some (p, TRun q ((lv, PRUnlock (cache_read fl lv p)) :: rest), ANone)
     | PReadU =>
-      match cache_read lv p with
+      match cache_read fl lv p with
       | Some i => Some (p, ret q (Ok i) rest, ANone)
       | None => Some (p, TRun q ((lv, PLock) :: rest), ANone)
       end
@@ -455,7 +479,7 @@ Definition tstep (fl : flavour) (c : bool) (fs : tfs) (p : pstate) (t : thread)
     | PRUnlock None => Some (p, TRun q ((lv, PLock) :: rest), ANone)
     | PLock => Some (p, TRun q ((lv, PRecheck) :: rest), ALock (lock_of lv))
     | PRecheck =>
-      match cache_read lv p with
+      match cache_read fl lv p with
       | Some i => Some (p, TRun q ((lv, PUnlock (Ok i)) :: rest), ANone)
       | None =>
         match lv with
